@@ -184,6 +184,36 @@ Definition exec_rpn_direct (s : song) (nrpn : bool) (args : list Z) : song :=
   | _ => runtime_error s (zs "RPN/NRPN needs 3 arguments")
   end.
 
+(* exec_play: every part on its own track (1, 2, ...), all from the pointer of the current track; the end is the latest
+   end; all tracks are aligned there; the current track is restored.  `ec` = exec() for the tokens of a part.
+   A part that is no string evaluates to its decimal text (an empty one to "0"). *)
+Definition play_text (a : option marg) : list ch :=
+  match a with Some (MStr t) => t | Some (MInt v) => show_int v | None => [48] end.
+Fixpoint play_parts (ec : list tok -> res song -> res song) (lineno start_pos : Z) (args : list (option marg))
+                    (index : nat) (s : song) (last : Z) : res (song * Z) :=
+  match args with
+  | [] => Ok (s, last)
+  | a :: r =>
+      let s2 := upd_cur (change_cur_track s index) (fun t => tr_set_timepos t start_pos) in
+      do lx <- lex (ls_of_song s2) (play_text a) lineno;
+      let '(toks, ls') := lx in
+      do s3 <- ec toks (Ok (song_with_ls s2 ls'));
+      let tp := tr_timepos (cur_track s3) in
+      play_parts ec lineno start_pos r (S index) s3 (if tp >? last then tp else last)
+  end.
+Definition exec_play (ec : list tok -> res song -> res song) (s : song) (args : list (option marg)) (lineno : Z) : res song :=
+  (* track numbers stay within 0..999 as for TR() *)
+  if (999 <? zlen args) || (999 <? Z.of_nat (s_cur s)) then Unsupported U_RUN_TRACKNO
+  else
+    let start_pos := tr_timepos (cur_track s) in
+    do r <- play_parts ec lineno start_pos args 1 s start_pos;
+    let '(s4, last) := r in
+    Ok (change_cur_track (track_sync (upd_cur s4 (fun t => tr_set_timepos t last))) (s_cur s)).
+
+(* the DefStr arm: the value of the (literal) expression; exec_value of nothing is Int 0 *)
+Definition def_str_value (v : option marg) : vval :=
+  match v with Some (MStr t) => VStr t 0 | Some (MInt z) => VInt z | None => VInt 0 end.
+
 Section Exec.
   (* exec() of the children of Sub / Div: supplied with one unit less of nesting fuel *)
   Variable exec_children : list tok -> res song -> res song.
@@ -277,6 +307,8 @@ Section Exec.
         let len_s := match len with [] => [49] | _ => len end in
         Ok (upd_cur s (fun t => on_rt t (fun k =>
               Reserve.write_cc_on_time k 11 [v1; v2; calc_length len_s (s_timebase s) (tr_length t)])))
+    | TPlay args lineno => exec_play exec_children s args lineno
+    | TDefStr name v => Ok (s_set_vars s ((name, def_str_value v) :: s_vars s))
     end.
 
   Definition step_tok (t : tok) (s : res song) : res song := do sg <- s; step_song t sg.
